@@ -118,4 +118,13 @@ CHECKS["C19"] = {
     "note": "The VM is an abstract deterministic step function in the model; the three export-wiring functions and the C API glue are not modelled, only compared by transcripts.",
     "design_ref": "DESIGN.md §4 C19",
 }
+CHECKS["C12"] = {
+    "technique": "Lean 4 proof over M-Iso (product isolation for arbitrary deterministic machines, address-renaming invariance of keyed tables) + translator: inventory of global state and address-keyed iterations regenerated from /repo/src and discharged by decide + transcript equality across processes/threads/interleavings/lifetimes",
+    "text": "product_isolation (in every interleaving of two instances each instance's outputs and final state are those of its solo run), map_addr_invariant (results of any insert/get/remove/contains sequence on an address-keyed table "
+            "are invariant under every injective re-assignment of addresses) are Lean theorems; globals_allowed / iterations_allowed are obligations over Gen/Globals.lean, which bin/extract regenerates from the Rust sources on every run "
+            "(statics, thread-locals, global cells/atomics; iterations over VarKey/Gc/callback-id keyed tables) - a new global or a new address-ordered iteration breaks the build. Groups of generated programs are run solo, after other instance lifetimes, "
+            "one thread each and interleaved step-by-step under random schedules, every variant in two processes; transcripts with the step index of every event must be identical; several top-level tasks on one interpreter woken by one host action must resume in the same order everywhere.",
+    "note": "The inventory is syntactic (regex-level reader); determinism of seedless FxHash iteration over counter-keyed tables is exercised, not proved; time/random providers are not read by the generated programs.",
+    "design_ref": "DESIGN.md §4 C12",
+}
 NOT_YET = {}
